@@ -542,7 +542,10 @@ class GenericPlainRegistry(Generic[QuantityT, UnitT], metaclass=RegistryMeta):
 
         It warns or raise error on redefinition.
         """
-        is_new = key not in target_dict
+        # A prefixed unit that was merely registered on first use (see get_name) is
+        # not a definition: defining a unit of that name is not a redefinition.
+        was_implicit = target_dict is self._units and key in self._prefixed_units
+        is_new = key not in target_dict or was_implicit
         if not is_new:
             if self._on_redefinition == "raise":
                 raise RedefinitionError(key, type(value))
@@ -557,7 +560,17 @@ class GenericPlainRegistry(Generic[QuantityT, UnitT], metaclass=RegistryMeta):
             # before this definition existed.
             self._cache.parse_unit.pop(key, None)
             self._prefixed_units.discard(key)
-            if is_new:
+            if was_implicit:
+                # Every spelling of that prefix + unit led to this name: forget all
+                # that has been memoised.
+                cache = self._cache
+                cache.parse_unit.clear()
+                cache.dimensionality.clear()
+                cache.root_units.clear()
+                cache.conversion_factor.clear()
+                if getattr(self, "_base_units_cache", None):
+                    self._base_units_cache.clear()
+            elif is_new:
                 # ... and so may containers spelled with it, with a prefix or as a
                 # plural (get_dimensionality, get_compatible_units and
                 # get_root_units accept any spelling).
